@@ -60,15 +60,16 @@ def build(case):
 
 
 def parse_dot(lines):
+    """Tolerant reader of the emitted DOT subset: `key [attrs]` and `a -> b [attrs]` statements
+    (any indentation, optional quotes around ids, optional trailing semicolon)."""
     nodes = {}
     edges = Counter()
+    ID = r'"?([^"\s\[\];]+)"?'
     for ln in lines:
-        if not ln.startswith("  ") or ln.strip().startswith("#"):
+        body = ln.strip().rstrip(";").strip()
+        if not body or body.startswith(("#", "//", "digraph", "graph ", "node ", "edge ", "}", "{")):
             continue
-        body = ln[2:]
-        if body.startswith(("graph ", "node ", "edge ")):
-            continue
-        m = re.fullmatch(r"(\S+) -> (\S+)(?: \[(.*)\])?", body)
+        m = re.fullmatch(ID + r"\s*->\s*" + ID + r"\s*(?:\[(.*)\])?", body)
         if m:
             lab = None
             if m.group(3):
@@ -76,7 +77,7 @@ def parse_dot(lines):
                 lab = mm.group(1) if mm else None
             edges[(m.group(1), m.group(2), lab)] += 1
             continue
-        m = re.fullmatch(r"(\S+)(?: \[(.*)\])?", body)
+        m = re.fullmatch(ID + r"\s*(?:\[(.*)\])?", body)
         if m:
             lab = None
             if m.group(2):
@@ -280,7 +281,7 @@ def shards(tier, seed):
     bound = 6 if tier == "quick" else 7
     out = [{"name": f"enum{i}", "kind": "enum", "i": i, "bound": bound, "budget_s": 150 if tier == "quick" else 1800}
            for i in range(NSHARDS)]
-    out += [{"name": f"rand{i}", "kind": "rand", "i": i, "count": 6 if tier == "quick" else 60,
+    out += [{"name": f"rand{i}", "kind": "rand", "i": i, "count": 6 if tier == "quick" else 400,
              "budget_s": 90 if tier == "quick" else 900} for i in range(NSHARDS)]
     return out
 
